@@ -257,11 +257,8 @@ def build(ctx):
         ctx.unit(f"panoptic_evaluate[{cls_name}]", lambda c=cls_name: unit_compose(ctx, c))
     ctx.unit("panoptic_evaluate[missing stage]", lambda: unit_missing_stage(ctx))
     # the stage contracts the composition rests on: regenerate and discharge them in this run
-    import importlib
     for m in STAGE_MODULES:
-        mod = importlib.import_module(f"props.{m}")
-        sub = SubCtx(ctx, m)
-        mod.build(sub)
+        include_stage(ctx, m)
     ctx.trust("stage summaries used in the composition run are the contracts proved in C02-C10/C13 (C02, C03, C04, C05, C09 re-discharged here)",
               "time.perf_counter / print (no effect on values)")
     ctx.add_bounded("c01-spec-conformance", "c01.bounded", exhaustive_1d=5 if ctx.tier == "quick" else 6, exhaustive_2d=(2, 3),
